@@ -23,22 +23,119 @@ theorem bitLen_eq_succ_iff (p : Int) (n : Nat) :
       have b := (Nat.log2_lt h).mpr h2
       omega
 
-/-! ## DecomposePQ -/
+/-! ## DecomposePQ: the translated pieces and their specification-side reading -/
 
-theorem rhoInner_inv (what v : Nat) (fuel j x y g : Nat) :
-    rhoInner what v fuel j x y g = g ∨ rhoInner what v fuel j x y g ∣ what := by
-  induction fuel generalizing j x y g with
+theorem pqDrawVT_spec (r w : Nat) : Facts.C13.pqDrawVT r w = ((r &&& 15) + 17) % w := rfl
+
+theorem pqRoundInitT_spec (r w i : Nat) :
+    Facts.C13.pqRoundInitT r w i = (w - 1, r % (w - 1) + 1, r % (w - 1) + 1, 2 ^ (i + 18), 1, true) := rfl
+
+theorem pqInnerInitT_spec (x v : Nat) : Facts.C13.pqInnerInitT x v = (x, x, v) := rfl
+
+theorem pqMulStepT_spec (a b c w : Nat) :
+    Facts.C13.pqMulStepT a b c w =
+      (b % 2, if b % 2 = 1 then addMod w a c else c, addMod w a a, b / 2) := by
+  unfold Facts.C13.pqMulStepT addMod
+  have h1 : b &&& 1 = b % 2 := Nat.and_one_is_mod b
+  have h2 : b >>> 1 = b / 2 := by rw [Nat.shiftRight_eq_div_pow]
+  have h3 : (0 < b % 2) ↔ (b % 2 = 1) := by omega
+  simp only [h1, h2, gt_iff_lt, ge_iff_le, decide_eq_true_eq, h3]
+
+theorem pqInnerTailT_spec (c y w j : Nat) (flag : Bool) :
+    Facts.C13.pqInnerTailT c y w j flag =
+      (c, subMod w c y, Nat.gcd (subMod w c y) w, if j &&& (j - 1) = 0 then c else y, j + 1,
+        if Nat.gcd (subMod w c y) w ≠ 1 then false else flag) := by
+  unfold Facts.C13.pqInnerTailT subMod
+  simp only [decide_eq_true_eq]
+
+theorem pqFinishT_spec (g w : Nat) : Facts.C13.pqFinishT g w = pqFinish w g := by
+  unfold Facts.C13.pqFinishT pqFinish
+  simp only [gt_iff_lt, decide_eq_true_eq]
+
+theorem pqOuterContT_false_iff (g w : Nat) : (!Facts.C13.pqOuterContT g w) = true ↔ 1 < g ∧ g < w := by
+  unfold Facts.C13.pqOuterContT; simp
+
+theorem pqInnerContT_spec (j lim : Nat) (flag : Bool) :
+    Facts.C13.pqInnerContT j lim flag = (decide (j < lim) && flag) := rfl
+
+theorem pqMulContT_spec (b : Nat) : Facts.C13.pqMulContT b = decide (0 < b) := rfl
+
+/-! ### the binary multiplication loop -/
+
+theorem addMod_eq (w a c : Nat) (ha : a < w) (hc : c < w) : addMod w a c = (c + a) % w := by
+  unfold addMod
+  split
+  · rename_i h
+    have : c + a - w < w := by omega
+    rw [← Nat.mod_eq_of_lt this, ← Nat.add_mod_right (c + a - w) w]
+    congr 1; omega
+  · rename_i h
+    exact (Nat.mod_eq_of_lt (by omega)).symm
+
+theorem addMod_lt (w a c : Nat) (ha : a < w) (hc : c < w) : addMod w a c < w := by
+  rw [addMod_eq w a c ha hc]; exact Nat.mod_lt _ (by omega)
+
+/-- The translated binary multiplication loop computes `(c + a·b) mod what` (enough fuel: `b < 2^fuel`). -/
+theorem mulLoop_eq (w fuel a b c : Nat) (ha : a < w) (hc : c < w) (hb : b < 2 ^ fuel) :
+    mulLoop w fuel a b c = (c + a * b) % w := by
+  induction fuel generalizing a b c with
+  | zero =>
+    have : b = 0 := by simpa using hb
+    subst this
+    simp [mulLoop, Nat.mod_eq_of_lt hc]
+  | succ n ih =>
+    rw [mulLoop, pqMulContT_spec, pqMulStepT_spec]
+    by_cases hb0 : b = 0
+    · subst hb0; simp [Nat.mod_eq_of_lt hc]
+    have hpos : decide (0 < b) = true := by simpa using Nat.pos_of_ne_zero hb0
+    rw [hpos, if_pos rfl]
+    dsimp only
+    have ha' := addMod_lt w a a ha ha
+    have hc' : (if b % 2 = 1 then addMod w a c else c) < w := by
+      split
+      · exact addMod_lt w a c ha hc
+      · exact hc
+    have hb' : b / 2 < 2 ^ n := by
+      rw [Nat.pow_succ] at hb; omega
+    rw [ih _ _ _ ha' hc' hb', addMod_eq w a a ha ha]
+    have hb2 : b = 2 * (b / 2) + b % 2 := by omega
+    split
+    · rename_i h1
+      rw [addMod_eq w a c ha hc]
+      conv => rhs; rw [hb2, h1]
+      rw [Nat.add_mod, Nat.mod_mod, Nat.mul_mod ((a + a) % w), Nat.mod_mod, ← Nat.mul_mod, ← Nat.add_mod]
+      congr 1
+      rw [Nat.mul_add, Nat.mul_one, ← Nat.mul_assoc, Nat.mul_two]
+      omega
+    · rename_i h1
+      have h0 : b % 2 = 0 := by omega
+      conv => rhs; rw [hb2, h0]
+      rw [Nat.add_mod, Nat.mul_mod ((a + a) % w), Nat.mod_mod, ← Nat.mul_mod, ← Nat.add_mod]
+      congr 1
+      rw [Nat.add_zero, ← Nat.mul_assoc, Nat.mul_two]
+
+theorem mulAddLoop_eq (w a b c : Nat) (ha : a < w) (hc : c < w) :
+    mulAddLoop w a b c = (c + a * b) % w :=
+  mulLoop_eq w (b + 1) a b c ha hc (Nat.lt_of_lt_of_le (Nat.lt_two_pow_self) (Nat.pow_le_pow_right (by decide) (Nat.le_succ b)))
+
+/-! ### soundness of the loops -/
+
+theorem rhoInner_inv (what v : Nat) (fuel j lim : Nat) (flag : Bool) (x y g : Nat) :
+    rhoInner what v fuel j lim flag x y g = g ∨ rhoInner what v fuel j lim flag x y g ∣ what := by
+  induction fuel generalizing j flag x y g with
   | zero => left; rfl
   | succ n ih =>
-    simp only [rhoInner]
-    by_cases hc : Nat.gcd (subMod what (mulAddLoop what x x v) y) what ≠ Facts.C13.pqValue1
-    · rw [if_pos hc]; right; exact Nat.gcd_dvd_right _ _
-    · rw [if_neg hc]
-      rcases ih (j + 1) (mulAddLoop what x x v)
-        (if j &&& (j - 1) = 0 then mulAddLoop what x x v else y)
-        (Nat.gcd (subMod what (mulAddLoop what x x v) y) what) with h | h
+    rw [rhoInner]
+    split
+    · dsimp only
+      rw [pqInnerTailT_spec]
+      dsimp only
+      generalize mulAddLoop what _ _ _ = C
+      rcases ih (j + 1) (if Nat.gcd (subMod what C y) what ≠ 1 then false else flag) C
+        (if j &&& (j - 1) = 0 then C else y) (Nat.gcd (subMod what C y) what) with h | h
       · right; rw [h]; exact Nat.gcd_dvd_right _ _
       · right; exact h
+    · left; rfl
 
 theorem pqFinish_sound (what g : Nat) (h1 : 1 < g) (h2 : g < what) (hd : g ∣ what) :
     (pqFinish what g).1 * (pqFinish what g).2 = what ∧ 1 < (pqFinish what g).1 ∧
@@ -60,17 +157,18 @@ theorem pqFinish_sound (what g : Nat) (h1 : 1 < g) (h2 : g < what) (hd : g ∣ w
   · refine ⟨?_, h1, by omega⟩
     rw [hk]
 
-theorem pqLoop_sound (hv1 : Facts.C13.pqValue1 = 1) (what : Nat) (tape : List Nat) (i g : Nat) (p q k : Nat)
+theorem pqLoop_sound (what : Nat) (tape : List Nat) (i g : Nat) (p q k : Nat)
     (hg : g ≤ 1 ∨ g ∣ what) (h : pqLoop what tape i g = .ok (p, q, k)) :
     p * q = what ∧ 1 < p ∧ p ≤ q := by
   fun_induction pqLoop what tape i g with
   | case1 tape i g hc =>
-    rw [hv1] at hc
+    have hc' := (pqOuterContT_false_iff g what).mp hc
     have hd : g ∣ what := by
       rcases hg with hg | hg
       · omega
       · exact hg
-    have := pqFinish_sound what g hc.1 hc.2 hd
+    have := pqFinish_sound what g hc'.1 hc'.2 hd
+    rw [pqFinishT_spec] at h
     injection h with h
     injection h with h1 h2
     injection h2 with h2 h3
@@ -80,9 +178,9 @@ theorem pqLoop_sound (hv1 : Facts.C13.pqValue1 = 1) (what : Nat) (tape : List Na
   | case3 => cases h
   | case4 => cases h
   | case5 => cases h
-  | case6 i g hc r1 r2 rest hw v x lim ih =>
+  | case6 i g hc r1 r2 rest hw v ri lim ih =>
     apply ih _ h
-    rcases rhoInner_inv what v (lim - 1) 1 x x g with e | e
+    rcases rhoInner_inv what v lim ri.2.2.2.2.1 lim ri.2.2.2.2.2 ri.2.1 ri.2.2.1 g with e | e
     · rw [e]; exact hg
     · right; exact e
 
@@ -203,55 +301,6 @@ theorem checkDHParams_some_lt (p g ga gb : Int) (i : Nat) (h : checkDHParams p g
 
 end TdModel.C13
 
-namespace TdModel.C13
-
-/-! ## the binary multiplication loop -/
-
-theorem addMod_eq (w a c : Nat) (ha : a < w) (hc : c < w) : addMod w a c = (c + a) % w := by
-  unfold addMod
-  split
-  · rename_i h
-    have : c + a - w < w := by omega
-    rw [← Nat.mod_eq_of_lt this, ← Nat.add_mod_right (c + a - w) w]
-    congr 1; omega
-  · rename_i h
-    exact (Nat.mod_eq_of_lt (by omega)).symm
-
-theorem addMod_lt (w a c : Nat) (ha : a < w) (hc : c < w) : addMod w a c < w := by
-  rw [addMod_eq w a c ha hc]; exact Nat.mod_lt _ (by omega)
-
-/-- The binary multiplication loop of `DecomposePQ` computes `(c + a·b) mod what`. -/
-theorem mulAddLoop_eq (w a b c : Nat) (ha : a < w) (hc : c < w) :
-    mulAddLoop w a b c = (c + a * b) % w := by
-  induction b using Nat.strongRecOn generalizing a c with
-  | _ b ih =>
-    rw [mulAddLoop]
-    by_cases hb : b = 0
-    · subst hb; simp [Nat.mod_eq_of_lt hc]
-    rw [dif_neg hb]
-    have ha' := addMod_lt w a a ha ha
-    have hc' : (if b % 2 = 1 then addMod w a c else c) < w := by
-      split
-      · exact addMod_lt w a c ha hc
-      · exact hc
-    rw [ih (b / 2) (by omega) _ _ ha' hc', addMod_eq w a a ha ha]
-    have hb2 : b = 2 * (b / 2) + b % 2 := by omega
-    split
-    · rename_i h1
-      rw [addMod_eq w a c ha hc]
-      conv => rhs; rw [hb2, h1]
-      rw [Nat.add_mod, Nat.mod_mod, Nat.mul_mod ((a + a) % w), Nat.mod_mod, ← Nat.mul_mod, ← Nat.add_mod]
-      congr 1
-      rw [Nat.mul_add, Nat.mul_one, ← Nat.mul_assoc, Nat.mul_two]
-      omega
-    · rename_i h1
-      have h0 : b % 2 = 0 := by omega
-      conv => rhs; rw [hb2, h0]
-      rw [Nat.add_mod, Nat.mul_mod ((a + a) % w), Nat.mod_mod, ← Nat.mul_mod, ← Nat.add_mod]
-      congr 1
-      rw [Nat.add_zero, ← Nat.mul_assoc, Nat.mul_two]
-
-end TdModel.C13
 
 namespace TdModel.C13
 
